@@ -197,6 +197,19 @@ func rulesC05Lib(w *World, r *Report) {
 			}
 		}
 	}
+	// the commands never override the open flags: Create keeps O_EXCL and never truncates an existing file
+	if wo := fn(w.Lib, "WithOpenFileFlag"); wo != nil {
+		nCallers := 0
+		for _, e := range w.callers(wo) {
+			if w.inModule(e.Caller.Func) {
+				nCallers++
+				r.Violate("C05.R3", "open-flag-override:"+funcName(e.Caller.Func), w.instrPos(e.Site), funcName(e.Caller.Func)+" overrides the handle's open flags: Create without O_EXCL truncates an existing file to the new layout's size and rewrites its header before anything is synced")
+			}
+		}
+		if nCallers == 0 {
+			r.OK("C05.R3", "open-flag-override", w.pos(wo.Pos()), "no function of the module overrides the open flags")
+		}
+	}
 	allowedWriters := map[string]bool{"whispertool.Whisper.putPointAt": true, "whispertool.Whisper.putHeader": true}
 	nW := 0
 	for _, e := range w.callers(writeAt) {
